@@ -61,6 +61,15 @@ func loadLibrary() (*Library, error) {
 	if err := L.loadAll(repoDir, filepath.Join(verifDir, "specs")); err != nil {
 		return nil, err
 	}
+	var known []KnownFinding
+	loadJSON(filepath.Join(verifDir, "known_findings.json"), &known)
+	for _, kf := range known {
+		if kf.Status == "open" {
+			for _, id := range strings.Split(kf.Obligation, ",") {
+				L.OpenFindings[strings.TrimSpace(id)] = true
+			}
+		}
+	}
 	return L, nil
 }
 
